@@ -21,7 +21,6 @@ package main
 import (
 	"bytes"
 	"fmt"
-	"os"
 	"runtime"
 	"strconv"
 	"sync"
@@ -54,6 +53,7 @@ type Thread struct {
 	resume  chan struct{}
 	freed   bool
 	adopted bool
+	mutexSeen int
 	status  int
 	// LastStop is the kind/point of the stop the thread is parked at.
 	LastKind, LastPoint string
@@ -159,10 +159,11 @@ func waitState(st string) bool {
 	return false
 }
 
-// writerMutexIsWait: with the candidate patch fixes/C04_1_target_write_lock.diff a writer
-// waits on the target's write lock while another writer of the target is parked in the feed
-// callback; set together with C04Check.fixed_C04_1 (DEFECT C04_1).
-var writerMutexIsWait = os.Getenv("VERIF_C04_FIXED_1") != ""
+// A writer (thread name w*) waits on the target's write mutex (cache.Target.wmu) while
+// another writer of the target is parked in the feed callback.  Any other mutex a writer
+// can be seen on is held for moments, so a writer counts as blocked only after it has been
+// seen in sync.Mutex.Lock in three snapshots at least a millisecond apart.
+const mutexSeenNeeded = 3
 
 // transient reports a state an unscheduled goroutine passes through on its
 // way to its first hook.
@@ -360,9 +361,17 @@ func (s *Sched) Step(t *Thread) []Event {
 					}
 					continue
 				}
-				if !waitState(states[x.goid]) &&
-					!(writerMutexIsWait && x.Name != "" && x.Name[0] == 'w' && states[x.goid] == "sync.Mutex.Lock") {
-					quiet = false
+				if x.Name != "" && x.Name[0] == 'w' && states[x.goid] == "sync.Mutex.Lock" {
+					x.mutexSeen++
+					if x.mutexSeen < mutexSeenNeeded {
+						quiet = false
+						time.Sleep(time.Millisecond)
+					}
+				} else {
+					x.mutexSeen = 0
+					if !waitState(states[x.goid]) {
+						quiet = false
+					}
 				}
 			}
 		}
